@@ -581,24 +581,29 @@ class Evaluator:
             inner_env = dict(lv_env)
             inner_env["$fx"] = ()
             inner = self.exec_block(list(st.body), [(frozenset(), inner_env, None)], ctx)
-            block = frozenset((frozenset(c), e.get("$fx", ()), repr(r) if r is not None else None) for c, e, r in inner)
+            rows = []
+            changed = {}
+            for c, e, r in inner:
+                fx = e.get("$fx", ())
+                # locals of the enclosing function that the body updates (accumulators, running variables);
+                # canonical in the variable's name: identified by the values it takes
+                for nm, v in sorted(e.items(), key=lambda kv: kv[0]):
+                    if nm.startswith("$") or nm.startswith("@") or nm in names:
+                        continue
+                    if nm in env and not _same_value(env[nm], v):
+                        fx = fx + (("local", as_term(env[nm]), as_term(v)),)
+                        changed.setdefault(nm, set()).add((frozenset(c), as_term(v)))
+                rows.append((frozenset(c), fx, repr(r) if r is not None else None))
+            block = frozenset(rows)
             e2 = dict(env)
+            for nm, vals in changed.items():
+                e2[nm] = Rat.atom(("afterloop", it_term, as_term(env[nm]), frozenset(vals)))
             self._fx(e2, ("foreach", it_term, block))
             return [(conds, e2, None)]
         body = list(st.body)
         filt = frozenset()
-        # leading `if c: continue` filters
-        while body and isinstance(body[0], ast.If) and not body[0].orelse and len(body[0].body) == 1 \
-                and isinstance(body[0].body[0], ast.Continue):
-            fc = self.cond_alts(body[0].test, lv_env, ctx)
-            if len(fc) != 1 or fc[0][0]:
-                raise Unreadable("loop filter")
-            fl = [cc for truth, cc in fc[0][1] if not truth]
-            if len(fl) != 1:
-                raise Unreadable("loop filter (disjunctive)")
-            filt |= fl[0]
-            body = body[1:]
-        if len(body) == 1 and isinstance(body[0], ast.If) and not body[0].orelse:
+        if len(body) == 1 and isinstance(body[0], ast.If) and not body[0].orelse and not (
+                len(body[0].body) == 1 and isinstance(body[0].body[0], ast.Continue)):
             fc = self.cond_alts(body[0].test, lv_env, ctx)
             if len(fc) != 1 or fc[0][0]:
                 raise Unreadable("loop filter")
@@ -609,6 +614,16 @@ class Evaluator:
             body = body[0].body
         e2 = dict(env)
         for b in body:
+            if isinstance(b, ast.If) and not b.orelse and len(b.body) == 1 and isinstance(b.body[0], ast.Continue):
+                # `if c: continue` anywhere in the body: everything after it is filtered by not c
+                fc = self.cond_alts(b.test, lv_env, ctx)
+                if len(fc) != 1 or fc[0][0]:
+                    raise Unreadable("loop filter")
+                fl = [cc for truth, cc in fc[0][1] if not truth]
+                if len(fl) != 1:
+                    raise Unreadable("loop filter (disjunctive)")
+                filt |= fl[0]
+                continue
             if isinstance(b, ast.AugAssign) and isinstance(b.op, ast.Add) and isinstance(b.target, ast.Name) \
                     and b.target.id in env and b.target.id not in names:
                 vs = self.ev(b.value, lv_env, ctx)
@@ -1533,6 +1548,17 @@ class FuncRef:
 
     def __repr__(self):
         return f"<func {self.func.qualname}>"
+
+
+def _same_value(a, b) -> bool:
+    if a is b:
+        return True
+    try:
+        if isinstance(a, Rat) and isinstance(b, Rat):
+            return a == b
+        return type(a) == type(b) and a == b
+    except Exception:
+        return False
 
 
 def _maybe_none(v) -> bool:
